@@ -43,6 +43,7 @@ pub fn one(ctx: &mut Ctx, input: &str, ext_bits: u32, conv: u8) {
             ctx.case(format!("metaonly {ext_bits} {conv} {}", enc_text(input)), reply, nontrivial, desc.clone());
         }
     }
+    if fm { let h = crate::util::hash64(input); crate::fm::fm_case(ctx, input, ext_bits, conv, (h % 4) as u8); }
     if let (Ok(m), Ok(f)) = (&meta, &full) {
         match (m.output(), f.output()) {
             (Some(a), Some(b)) => {
@@ -64,5 +65,6 @@ pub fn run(ctx: &mut Ctx) {
     let m = if ctx.thorough { 400_000 } else { 12_000 };
     for i in 0..m { let s = meta_gen(&mut rng); one(ctx, &s, gen::ext_pattern(i % 256), (i % 2) as u8); }
     let w = if ctx.thorough { 20_000 } else { 500 };
+    crate::fm::family(ctx, 0xC14);
     for i in 0..w { let r = crate::wf::generate(&mut rng, i % 2 == 1); let t = crate::wf::spell(&r, &crate::wf::Style::plain()); one(ctx, &t, if i % 2 == 1 { 0xEEA } else { 0 }, (i % 2) as u8); }
 }
